@@ -201,13 +201,17 @@ HasPrefix(s, p) == Len(p) <= Len(s) /\ SubSeq(s, 1, Len(p)) = p
 HasSuffix(s, p) == Len(p) <= Len(s) /\ SubSeq(s, Len(s) - Len(p) + 1, Len(s)) = p
 Contains(s, p)  == \E i \in 1..(Len(s) - Len(p) + 1) : SubSeq(s, i, i + Len(p) - 1) = p
 
-(* Patterns: the literal forms lit, ^lit, lit$, ^lit$, and the invalid "(" *)
+(* Patterns: the literal forms lit, ^lit, lit$, ^lit$, and the invalid "(". *)
+(* A pattern computed at run time whose literal part contains one of the    *)
+(* metacharacters of the alphabet is outside the modelled pattern language.  *)
+HasMeta(lit) == \E i \in 1..Len(lit) : Ch(lit, i) \in {"(", "^", "$"}
 Matches(s, p) ==
   IF p = "(" THEN Err("pattern")
   ELSE LET anchL == Len(p) > 0 /\ Ch(p, 1) = "^"
            anchR == Len(p) > 0 /\ Ch(p, Len(p)) = "$"
            lit   == SubSeq(p, (IF anchL THEN 2 ELSE 1), (IF anchR THEN Len(p) - 1 ELSE Len(p)))
-       IN Bool(CASE anchL /\ anchR -> s = lit
+       IN IF HasMeta(lit) THEN Outside ELSE
+          Bool(CASE anchL /\ anchR -> s = lit
                  [] anchL -> HasPrefix(s, lit)
                  [] anchR -> HasSuffix(s, lit)
                  [] OTHER -> Contains(s, lit))
